@@ -77,6 +77,13 @@ def make_basis(spec, d):
         if how == 'permute':
             perm = np.concatenate(([0], 1 + r.permutation(n - 1)))
             return parent[perm]
+        if how in ('swap2', 'swap_last'):
+            # the parent with just two elements exchanged (two random non-identity ones / the last
+            # two): a basis that agrees with a standard one almost everywhere
+            perm = np.arange(n)
+            i, j = (n - 2, n - 1) if how == 'swap_last' else (1 + r.choice(n - 1, 2, replace=False))
+            perm[[i, j]] = perm[[j, i]]
+            return parent[perm]
         if how == 'subset':
             # an incomplete basis cut out of a complete one (whose flags are already evaluated)
             k = int(r.integers(1, n))
@@ -184,7 +191,7 @@ def rand_desc(rng, d=None, n_dt=None, n_c=None, n_n=None, basis=None, features=N
         # although the Hamiltonian is not degenerate (for d = 2 it is -1 or +1)
         g = int(rng.integers(0, max(n_dt - 1, 1)))
         lam = np.linalg.eigvalsh(np.einsum('ijk,i->jk', c_opers, c_coeffs[:, g]))
-        gaps = [x for x in np.subtract.outer(lam, lam).ravel() if x > 1e-3]
+        gaps = [x for x in np.subtract.outer(lam, lam).ravel() if x > 0.2]     # (durations stay below ~60)
         if gaps:
             dt[g] = 2*np.pi*int(rng.integers(1, 3))/float(rng.choice(gaps))
     n_opers = []
